@@ -16,10 +16,13 @@ EXPECT = [
     ('e282dc0', 'C17', 'L1 / round trip of ErrorKind::RuntimeError'), ('6cddf7c', 'C12', 'H3 / hash_number'), ('4ce82f0', 'C04', 'B4 / Compiler::patch_jump'),
     ('6fa2e48', 'C04', "B4 / Parser::<'a>::interpolation"), ('fcfdba5', 'C02', 'P2 / yarel::core::vec_push'), ('95f7a92', 'C08', 'X7 / yarel::vm::Vm::end_finally_impl'),
     ('8de29b1', 'C17', 'L4 / unwind_stack clears error_ip'), ('bff4dcb', 'C04', 'B8 / break_statement'), ('611150e', 'C04', 'B9 / for_statement -> add_local'),
-    ('c99966a', 'C17', 'L4 / error_ip is given an address only by'), ('bd46585', 'C17', 'L6 / return_impl updates error_ip'),
+    ('c99966a', 'C17', 'L6 / unwind_stack updates error_ip'), ('bd46585', 'C17', 'L6 / return_impl updates error_ip'),
     ('5316737', 'C08', 'X13 / return through nested try statements'), ('ba8fac9', 'C15', 'N4 / Vm.range_cache survives reset()'),
     ('fef9c2f', 'C07', 'K4 / super_ selects the enclosing method by its kind'), ('fd417cd', 'C14', 'M6 / built-in StopIter is exported to every module'),
     ('f5767c9', 'C17', 'L3 / Scanner::read_escaped_bytes / loop over advance() looks for newlines'),
+    ('6ca1d5b', 'C17', 'L4 / try_handle_error records the current instruction'), ('c0b4111', 'C17', 'L3 / Scanner::string / advance() is preceded by a look-ahead'),
+    ('ca6eca8', 'C03', 'T10 / yarel::scanner::Scanner::string'), ('a2081e8', 'C06', 'S8 / reset_stack closes upvalues in a loop'),
+    ('1342e1d', 'C14', 'M7 / start_import_impl registers the module only behind'), ('1a2d6ec', 'C17', 'L10 / '),
 ]
 root = tempfile.mkdtemp(prefix='yarel_snapshot_')
 first = subprocess.run(['git', '-C', '/repo', 'rev-list', '--max-parents=0', 'HEAD'], capture_output=True, text=True).stdout.split()[0]
